@@ -167,7 +167,10 @@ func (cx *Connection) prefetch() (err error) {
 
 		cx.bytesRead += uint64(n)
 
-		if err != nil {
+		// a Read may return bytes together with an error (crypto/tls does so when the
+		// peer's close_notify follows its last record); these bytes have to be matched
+		// like any others, and the error will be returned again by the next Read
+		if err != nil && n == 0 {
 			return err
 		}
 
